@@ -629,6 +629,8 @@ pub struct ClientStats {
     pub requests: u64,
     pub virtual_secs: u64,
     pub kills: u64,
+    /// kills that fired at a numbered crash point (inside a durable write)
+    pub kills_at_crash_points: u64,
     pub crash_points: u64,
     pub probes: BTreeMap<String, u64>,
     pub replies_injected: BTreeMap<String, u64>,
@@ -1329,6 +1331,7 @@ pub fn run_client(hist: &ClientHistory) -> ClientResult {
             h = fnv(h, format!("{} {} {}", f.property, f.clause, f.op_index).as_bytes());
         }
         s.stats.digest = h;
+        s.stats.kills_at_crash_points = cp_kills.load(Ordering::SeqCst);
         s.stats.nontrivial = st.log.iter().any(|r| r.reply != Reply::Accept) || s.stats.kills > 0;
     }
     ClientResult {
